@@ -345,8 +345,8 @@ def receiver_stage(run, focus, classes, selftest, what, suggest=True, binary=Non
     if selftest:
         def flip(case):
             e = case["expect"]
-            if e["clean"] and e["v_decl"] and isinstance(e["v_decl"][0], str):
-                e["v_decl"][0] = e["v_decl"][0] + "~"
+            if e["clean"] and e["v_decl"]:
+                e["v_decl"][0] = (e["v_decl"][0] + "~") if isinstance(e["v_decl"][0], str) else "~"
                 return True
             return False
         selftest_replay_bin(run, VHC, res["out"], flip, "alter one expected field value")
